@@ -47,7 +47,7 @@ def reduced_quantise_scale(scale):
     reduced_multiplier = int((multiplier + (1 << 15)) >> 16) if multiplier < 32767 << 16 else 32767
     reduced_shift = shift - 16
 
-    if not (0 <= shift < (1 << 6)):
+    if not (0 <= reduced_shift < (1 << 6)):
         # Shift outside of valid range, set scale to 0
         return 0, 16
 
